@@ -161,6 +161,81 @@ pub fn check_one<P: Pid>(c: &PacketCase, st: &mut Stats) -> R {
     Ok(())
 }
 
+/// Builder abuse: one structural rule of the kind is broken in an otherwise valid abstract packet (identifier 0, identifier on a
+/// QoS 0 PUBLISH, none on QoS 1/2, empty or wildcard topic name, empty entry / code lists). The builders are expected to refuse;
+/// C02 quantifies over whatever they accept, so an accepted one must round-trip like any other packet.
+pub fn abuse(ap: &AP, k: u8) -> Option<AP> {
+    let mut a = ap.clone();
+    match &mut a {
+        AP::Publish { qos, pid, topic, props, .. } => match k % 6 {
+            0 => {
+                *qos = 0;
+                *pid = Some(1);
+            }
+            1 => {
+                *qos = 1 + (k / 6) % 2;
+                *pid = None;
+            }
+            2 => {
+                *qos = 1 + (k / 6) % 2;
+                *pid = Some(0);
+            }
+            3 => {
+                *topic = String::new();
+                props.retain(|p| p.id != pid::TOPIC_ALIAS);
+            }
+            4 => *topic = "a/#".into(),
+            _ => *topic = "+/b".into(),
+        },
+        AP::Ack { pid, .. } => *pid = 0,
+        AP::Subscribe { pid, entries, .. } => {
+            if k % 2 == 0 {
+                *pid = 0
+            } else {
+                entries.clear()
+            }
+        }
+        AP::Unsubscribe { pid, topics, .. } => {
+            if k % 2 == 0 {
+                *pid = 0
+            } else {
+                topics.clear()
+            }
+        }
+        AP::Suback { pid, codes, .. } => {
+            if k % 2 == 0 {
+                *pid = 0
+            } else {
+                codes.clear()
+            }
+        }
+        AP::Unsuback { pid, codes, v, .. } => {
+            if k % 2 == 0 || *v == V::V311 {
+                *pid = 0
+            } else {
+                codes.clear()
+            }
+        }
+        _ => return None,
+    }
+    Some(a)
+}
+
+pub fn abuse_strategy(o: gen::GenOpts) -> BoxedStrategy<PacketCase> {
+    (case_strategy(o), any::<u8>()).prop_filter_map("kind without a structural rule to break", |(c, k)| abuse(&c.ap, k).map(|ap| PacketCase { idw: c.idw, ap })).boxed()
+}
+
+pub fn test_abuse(c: &PacketCase, st: &mut Stats) -> R {
+    let before = st.classes.get("rejected_by_builder").copied().unwrap_or(0);
+    let r = test(c, st);
+    let refused = st.classes.get("rejected_by_builder").copied().unwrap_or(0) > before;
+    st.class(if refused { "abuse_refused_by_builder" } else { "abuse_accepted_by_builder" });
+    if !refused {
+        st.nontrivial(&(c.idw, &c.ap));
+    }
+    r
+}
+
 pub fn test(c: &PacketCase, st: &mut Stats) -> R {
     match c.idw {
         2 => check_one::<u16>(c, st),
@@ -178,6 +253,11 @@ pub fn run(ctx: &Ctx) -> Report {
     let n = ctx.tier.pick(400_000, 3_000_000);
     let (st, v) = search(ctx, "c02.roundtrip", n, || case_strategy(o), test);
     rep.absorb("roundtrip", st, v, false);
+    // whatever the builders accept beyond the well-formed domain must round-trip too
+    let small = gen::GenOpts { big: false, beyond_spec: true };
+    let n2 = ctx.tier.pick(100_000, 1_000_000);
+    let (st, v) = search(ctx, "c02.abuse", n2, move || abuse_strategy(small), test_abuse);
+    rep.absorb("builder_abuse", st, v, false);
     let feats: Vec<&str> = [
         #[cfg(feature = "sso-lv20")]
         "sso-lv20",
@@ -195,7 +275,7 @@ pub fn run(ctx: &Ctx) -> Report {
 }
 
 pub fn replay(check: &str, case: &serde_json::Value) -> Option<R> {
-    if check != "c02.roundtrip" {
+    if check != "c02.roundtrip" && check != "c02.abuse" {
         return None;
     }
     let c: PacketCase = serde_json::from_value(case.clone()).ok()?;
